@@ -69,7 +69,11 @@ int main(int argc, char** argv)
         // constructed from a non-empty initial value: both internal copies must start out equal to it
         Cell initial_value;
         initial_value.set_raw(200);
-        lr_guarded<Cell, vrf::mutex_t> lr(initial_value);
+        // (given as an lvalue or as an rvalue: the constructor must build BOTH copies from it)
+        std::optional<lr_guarded<Cell, vrf::mutex_t>> lr_storage;
+        if (r % 2) lr_storage.emplace(std::move(initial_value));
+        else lr_storage.emplace(initial_value);
+        auto& lr = *lr_storage;
         auto strip_initial = [](std::vector<uint32_t>& v, const char* where) {
             if (v.empty() || v[0] != 200) vrf::violation("oracle:initial_value_missing", std::string("{\"where\":\"") + where + "\",\"log\":" + vrf::jnums(v) + "}");
             v.erase(v.begin());
